@@ -226,7 +226,7 @@ def _z3_version():
 # ---------------------------------------------------------------------------------------
 # native replay
 
-def go_test_overlay(files, run, timeout=600, tags=None, extra_env=None):
+def go_test_overlay(files, run, timeout=600, tags=None, extra_env=None, extra_args=()):
     """files: {virtual name in /repo: source text}. Runs `go test -run <run>` on /repo with
     an overlay; returns (returncode, output)."""
     d = scratch("verif-replay-")
@@ -246,6 +246,7 @@ def go_test_overlay(files, run, timeout=600, tags=None, extra_env=None):
     cmd = ["go", "test", "-v", "-vet=off", "-count=1", "-overlay", ov, "-run", run, "-timeout", "%ds" % timeout]
     if tags:
         cmd += ["-tags", tags]
+    cmd += list(extra_args)
     cmd += ["."]
     r = subprocess.run(cmd, cwd=REPO, env=env, stdout=subprocess.PIPE, stderr=subprocess.STDOUT, text=True,
                        timeout=timeout + 60)
